@@ -197,6 +197,22 @@ pub fn check_engine_defaults(engine: &Engine, file: &FileVoice, lines: &[String]
     ensure!(c.get_sampling_frequency() == file.sampling_frequency, "engine-defaults", "sampling rate {} != header {}", c.get_sampling_frequency(), file.sampling_frequency);
     ensure!(c.get_fperiod() == file.frame_period, "engine-defaults", "frame period {} != header {}", c.get_fperiod(), file.frame_period);
     ensure!(c.get_alpha() == alpha, "engine-defaults", "alpha {} != header {}", c.get_alpha(), alpha);
+    // stage and log-gain flag have no getter; the derived Debug output is the only direct public
+    // observation. It is used when it has the expected shape and ignored otherwise.
+    let dbg = format!("{:?}", c);
+    let field = |name: &str| -> Option<String> {
+        let key = format!("{}: ", name);
+        let p = dbg.find(&key)? + key.len();
+        let rest = &dbg[p..];
+        let end = rest.find([',', ' ', '}'])?;
+        Some(rest[..end].to_string())
+    };
+    if let (Some(st), Some(lgs)) = (field("stage"), field("use_log_gain")) {
+        if let (Ok(st), Ok(lgs)) = (st.parse::<usize>(), lgs.parse::<bool>()) {
+            ensure!(st == stage, "engine-defaults", "gamma stage {} != header GAMMA={}", st, stage);
+            ensure!(lgs == lg, "engine-defaults", "log-gain flag {} != header LN_GAIN={} (options {:?})", lgs, lg as u8, file.streams.first().map(|s| &s.options));
+        }
+    }
     if !lines.is_empty() {
         let wave = match engine.synthesize(lines) {
             Ok(w) => w,
